@@ -13,3 +13,8 @@ CHECKS["C01"] = dict(
     text="TLC enumerates law x reactant multiset (orders 0..4, repeats) x rational state grid x parameters (incl. fractional Hill exponents on exact perfect powers) x volumes on the closed forms of RateLaws.tla, checks the consistency identities (dimension, unit volume, stochastic<=deterministic, falling-factorial zeros, Hill complement) at every point, and every point is evaluated on the real code in four modes through a bare propensity object, the plain and the safe interface.",
     ref="DESIGN.md 5 C01", technique="TLA+ spec of the closed forms over exact rationals, exhaustively enumerated by TLC; each spec state replayed as an evaluation of the implementation",
     note="Exactly representable points only (rtol 1e-9); the safe path is compared only at states that supply the net-consumed reactants; general propensities are covered by C02.")
+
+CHECKS["C16"] = dict(
+    text="Priors.tla states support and exact log-density of the seven families in a canonical symbolic form (rational coefficients over ln p, ln 2pi, lnln, lnsq atoms); TLC checks density identities that pin every normalising constant on all 3810 single-prior grid points and generates random vectors of 1..4 priors with positive-flags; every case is evaluated with the real PIDInterface.check_prior (rejected <=> non-finite, else exact value to 1e-9) and rejected vectors are also pushed through InferenceSetup.cost_function (-inf).",
+    ref="DESIGN.md 5 C16", technique="TLA+ spec of supports and symbolic log-densities, identities model-checked by TLC; spec states replayed as evaluations of check_prior / cost_function",
+    note="Integer gamma/beta shapes; gaussian within 12 sigma; boundary points with an open/closed convention are generated but not judged; atoms are mapped to floats with one math.log each.")
